@@ -2,6 +2,7 @@ From Coq Require Import List NArith ZArith Permutation Relations.
 From SK Require Import lib.LGraph lib.StrJoin model.C08_Model proof.C08_Spec proof.C08_Faithful proof.C08_Nauty proof.C08_SigFun proof.C08_Sound proof.C08_Invariant proof.C08_Value proof.C08_GraphSig proof.C08_Auts proof.C08_GenIdem proof.C08_Select proof.C08_Orbits.
 From SK Require Import model.C08_Digraph proof.C08_DSpec proof.C08_DSer proof.C08_DNauty proof.C08_DInvariant proof.C08_MaxDepth proof.C08_DValue proof.C08_DGraphSig proof.C08_OrbitsAut proof.C08_DAuts proof.C08_DOrbitsAut.
 From SK Require Import model.C08_Obs proof.C08_Order model.C08_Sel proof.C08_SelNauty proof.C08_SelEquiv proof.C08_MaxDepth2 proof.C08_Pattern proof.C08_RuleJoint.
+From SK Require Import model.C08_Rule2 proof.C08_Rule2Spec proof.C08_Rule2 proof.C08_Rule2Derived.
 Import ListNotations.
 
 (** 1. Faithfulness: the canonical graph is the input relabelled by a map that is injective on its nodes;
@@ -526,3 +527,49 @@ Theorem C08_value_objects_synrule_refuted : exists rc l r rc' l' r' : graph,
                geq_cov (relabel f l) l' /\ geq_cov (relabel f r) r' /\ geq_cov (relabel f rc) rc').
 Proof. exact synrule_joint_refuted_flat. Qed.
 Print Assumptions C08_value_objects_synrule_refuted.
+
+(** 26. The REPAIRED SynRule equality (/repo 4537ada; model/C08_Rule2.v; round 6).  A rule = (its, left, right): [its : graph2] is the
+        ITS graph with a two-sided node attribute (reactant, product) and (before, after) bond orders; __eq__ / __hash__ compare
+        left.signature, right.signature and the signature of the two-sided reaction-centre graph ([rule2_eqb]; the verdict matrix of
+        every itsrule and rule case is compared with SynRule.__eq__ and hash equality on every run, with and without implicit_h).
+        [geq2] = same set of atoms with (element, charge, aromatic, hcount) BEFORE AND AFTER, same set of bonds with (before, after,
+        standard_order); [els2_ok] = element symbols are ASCII letters / digits.
+        a. the two-sided rc signature is exact: equal <=> ONE bijection preserving the two-sided labels of atoms and bonds;
+        b. equal rules are isomorphic as rules (that bijection exists) - the clause audit A2-1 found violated, now full;
+        c. for rules whose stored fragments are the its_decompose projections of their stored ITS graph ([left_of]: reactant-side atom
+           labels, bonds with before > 0 and order := before; [right_of]: product side / after; the constructor's hydrogen handling
+           edits the three graphs consistently - the model checks [derived_b] on the implementation's values of EVERY rule of every
+           case, and [derived_b_sound] turns the check into the premise): equal <=> isomorphic as rules, full strength;
+        d. without that premise: equal <=> ITS-isomorphic and fragmentwise isomorphic. *)
+Theorem C08_synrule_repaired_rc_signature_exact : forall g h : graph2, wf g -> wf h -> els2_ok g -> els2_ok h ->
+  (rc2_sig g = rc2_sig h <-> exists f, inj_on f (node_ids g) /\ geq2 (relabel f g) h).
+Proof. exact rc2_sig_exact. Qed.
+Print Assumptions C08_synrule_repaired_rc_signature_exact.
+
+Theorem C08_synrule_repaired_eq_sound : forall (its its' : graph2) (l r l' r' : graph),
+  wf its -> wf l -> wf r -> wf its' -> wf l' -> wf r' -> els2_ok its -> els_ok l -> els_ok r -> els2_ok its' -> els_ok l' -> els_ok r' ->
+  rule2_eqb (its, l, r) (its', l', r') = true ->
+  exists f, inj_on f (node_ids its) /\ geq2 (relabel f its) its'.
+Proof. exact rule2_eq_sound_flat. Qed.
+Print Assumptions C08_synrule_repaired_eq_sound.
+
+Theorem C08_synrule_repaired_eq_exact : forall (its its' : graph2) (l r l' r' : graph),
+  wf its -> wf l -> wf r -> wf its' -> wf l' -> wf r' -> els2_ok its -> els_ok l -> els_ok r -> els2_ok its' -> els_ok l' -> els_ok r' ->
+  geq_cov l (left_of its) -> geq_cov r (right_of its) -> geq_cov l' (left_of its') -> geq_cov r' (right_of its') ->
+  (rule2_eqb (its, l, r) (its', l', r') = true <-> exists f, inj_on f (node_ids its) /\ geq2 (relabel f its) its').
+Proof. exact rule2_exact_flat. Qed.
+Print Assumptions C08_synrule_repaired_eq_exact.
+
+Theorem C08_synrule_repaired_eq_componentwise : forall (its its' : graph2) (l r l' r' : graph),
+  wf its -> wf l -> wf r -> wf its' -> wf l' -> wf r' -> els2_ok its -> els_ok l -> els_ok r -> els2_ok its' -> els_ok l' -> els_ok r' ->
+  (rule2_eqb (its, l, r) (its', l', r') = true <->
+   (exists f, inj_on f (node_ids its) /\ geq2 (relabel f its) its') /\ iso_cov l l' /\ iso_cov r r').
+Proof. exact rule2_eqb_spec_flat. Qed.
+Print Assumptions C08_synrule_repaired_eq_componentwise.
+
+(** 26e. the check the correspondence evaluates on the implementation's values of every rule ([derived_b]: the serialisations of the
+         stored fragments equal those of the projections) implies the premise of 26c. *)
+Theorem C08_synrule_repaired_derived_check : forall (its : graph2) (l r : graph), els2_ok its -> els_ok l -> els_ok r ->
+  derived_b (its, l, r) = true -> geq_cov l (left_of its) /\ geq_cov r (right_of its).
+Proof. exact derived_b_sound_flat. Qed.
+Print Assumptions C08_synrule_repaired_derived_check.
